@@ -12,6 +12,7 @@ ItemAt(g) ==
   ELSE IF g <= O3 THEN RandDocAt(g - O2)
   ELSE IF g <= O4 THEN MemberlessAt(g - O3)
   ELSE NameOrderAt(g - O4)
+Histories == IF "VERIF_TIER" \in DOMAIN IOEnv /\ IOEnv.VERIF_TIER = "thorough" THEN 300 ELSE 40
 VARIABLE n
 INSTANCE GenBase
 =============================================================================
